@@ -267,11 +267,33 @@ fn run_case(args: &Args, run: u64, seed: u64, w: &mut CaseWriter, jsonl: &mut st
     let mut held: HashMap<u64, Vec<(u64, bool)>> = HashMap::new(); // thread -> stack of (lock id, exclusive)
     let mut edges: BTreeSet<(u64, u64)> = BTreeSet::new();
     let mut kinds: BTreeMap<String, u64> = BTreeMap::new();
+    let repo_prefix = format!("{}/", dir.join("repo").display());
+    let mut repo_fs_steps = 0u64;
     for (t, ev) in &events {
         *kinds.entry(ev.kind.to_string()).or_default() += 1;
         let (ns, scope) = lock_name(ev);
+        if ev.kind.starts_with("fs-") {
+            // the files of the repository (RRDP and rsync trees) belong to the publication server's update lock
+            // (content.rs: every writer goes through write_repository_content): a file-system step there is a
+            // mutation of that entity; without the lock it is a mutation nobody owns
+            if ns.starts_with(&repo_prefix) {
+                let st = held.entry(*t).or_default();
+                let ul = locks.id("mem:pubd-update-lock|<root>");
+                let ent = if st.iter().any(|(h, w)| *h == ul && *w) { ul } else { locks.id("unlocked-repository-files|<root>") };
+                let k = keys.id(if ns[repo_prefix.len()..].starts_with("rrdp") { "fs|rrdp" } else { "fs|rsync" });
+                trace.push(format!("TWr {t} {ent} {k}"));
+                repo_fs_steps += 1;
+            }
+            continue;
+        }
         let root = locks.id(&format!("{ns}|<root>"));
         match ev.kind {
+            "lock-acquired" if ev.extra.as_deref() == Some("shared") => {
+                let st = held.entry(*t).or_default();
+                for (h, _) in st.iter() { edges.insert((*h, root)); }
+                st.push((root, false));
+                lock_events.push(format!("({}%nat, Acq {} R)", t, root));
+            }
             "lock-acquired" => {
                 let st = held.entry(*t).or_default();
                 let mut acq = |l: u64, w: bool, st: &mut Vec<(u64, bool)>| {
@@ -472,7 +494,7 @@ fn run_case(args: &Args, run: u64, seed: u64, w: &mut CaseWriter, jsonl: &mut st
         coq_list(&rank.iter().map(|(l, r)| format!("({l}, {r})")).collect::<Vec<_>>()), coq_list(&trace),
         completed, versions_consecutive, none_lost, history_complete);
     let rec_json = json!({"index": w.total, "run": run, "backend": if disk {"disk"} else {"memory"}, "workers": n_workers, "ops_per_worker": n_ops, "threads_seen": n_threads,
-        "probe_events": events.len(), "lock_events": lock_events.len(), "entity_trace": trace.len(), "locks": locks.map.len(), "nesting_edges": edges.len(),
+        "probe_events": events.len(), "lock_events": lock_events.len(), "entity_trace": trace.len(), "locks": locks.map.len(), "nesting_edges": edges.len(), "repository_file_steps_in_trace": repo_fs_steps,
         "new_commands": new_commands, "phase0_listener_failure_after_restart": phase0, "completed": completed, "versions_consecutive": versions_consecutive, "none_lost_or_doubled": none_lost, "history_complete": history_complete, "repository_view_equals_fresh_load": repo_view_ok, "published_repository_after_catch_up": published,
         "nesting": edges.iter().map(|(a, b)| { let n = |x: &u64| locks.map.iter().find(|(_, id)| *id == x).map(|(s, _)| s.rsplit('/').next().unwrap_or(s).to_string()).unwrap_or_default(); format!("{} -> {}", n(a), n(b)) }).collect::<Vec<_>>(),
         "class": {"completed": completed}});
